@@ -1019,6 +1019,11 @@ func condKey(cond ssa.Value, pol bool) (string, bool) {
 		if b, ok := x.Type().Underlying().(*types.Basic); ok && b.Kind() == types.Bool {
 			return "val:" + x.Parent().Name() + "." + x.Name(), pol
 		}
+	case *ssa.Call:
+		// the boolean result of a call kept in a variable (`ok := result.Ok()`) and tested more than once
+		if b, ok := x.Type().Underlying().(*types.Basic); ok && b.Kind() == types.Bool {
+			return "val:" + x.Parent().Name() + "." + x.Name(), pol
+		}
 	}
 	return "", pol
 }
